@@ -41,7 +41,7 @@ func Ob_C04C05_RefundOrder() {
 }
 
 // C16/C13 NewOrder: fresh id, one shard per provider, each shard lists the order and is listed by it.
-func Ob_C13C16_NewOrder() {
+func Ob_C12C13C16_NewOrder() {
 	w := NewWorld()
 	var o ordertypes.Order
 	sym.Fill("order", &o)
